@@ -101,10 +101,14 @@ def _parse_complex(complex_str: str) -> complex:
 
 
 def _parse_operator(op_str: str) -> Tuple[int, str]:
-    match = re.match(r"([XYZI])([0-9]+)$", op_str, re.I)
+    match = re.match(r"([XYZ])([0-9]+)$|(I)([0-9]*)$", op_str, re.I)
 
     if not match:
         raise ValueError("Badly formatted string representation passed.")
+
+    if match.group(3):
+        # Identity may come without an index: this is how constant terms are printed.
+        return int(match.group(4) or 0), match.group(3).upper()
 
     return int(match.group(2)), match.group(1).upper()
 
